@@ -127,6 +127,11 @@ func init() {
 			})
 			c.ssaRepo("single-consumer", func(w *effects.World) *report.RuleResult { return effects.SingleConsumer(w, "cmd/php-parser") })
 		})
+	const mg = "machine-graph: the edges between the machines of the scanner - machine --token, free-floating kind or nothing--> next machine, call or return, computed from every action outcome - equal the reviewed table testdata/oracle/machine_graph.json (172 edges: after `->` the property machine, after `__halt_compiler` the three machines that expect `(` `)` `;`, a byte a machine has no rule for is given back to the php machine, …). An `fnext` that names another machine in one of the 200 generated actions changes the set (round 6: the fallback of `__halt_compiler()` not followed by `;` continued in the machine that swallows the rest of the file, so every statement after it was lost)."
+	mgF := []report.Floor{{Rule: "machine-graph", What: "edges", Min: 150}}
+	for _, id := range []string{"C07", "C03", "C02"} {
+		extendProp(id, mg, mgF, func(c *Ctx) { defer c.cleanup(); c.scanRun("machine-graph") })
+	}
 	extendProp("C14", "presence-oracle: which slots of which node kinds a silently parsed tree may leave empty equals the reviewed table - a name node's kind is told by its tokens (a NameRelative has its `namespace` keyword, a NameFullyQualified its leading separator), and the resolver chooses the rule by kind (seed C14-13: `\\Vendor\\X` in a PHP 5 constant expression built as a NameRelative without the keyword, resolved against the current namespace).",
 		[]report.Floor{{Rule: "presence-oracle", What: "slots", Min: 1100}},
 		func(c *Ctx) { defer c.cleanup(); c.presenceOracle() })
